@@ -39,10 +39,12 @@ func wsGate(c *vk.Ctx) {
 	}
 	m := runSharded(c, "ws-gate")
 	maxLen := gateMaxLen(c.Tier)
-	c.P.Bound = fmt.Sprintf("all frame sequences of length <= %d over %d frame classes x 3 handler scripts x {stepwise, pipelined}; %d single-event and 1 all-events session of the C01 gate sweep",
-		maxLen, len(alphabet()), m.Counters["c01_sweep_events"])
+	c.P.Bound = fmt.Sprintf("all frame sequences of length <= %d over %d frame classes x 3 handler scripts x {stepwise, pipelined}; "+
+		"stalled-then-drain: 6 first invalid frames (one per rejection site of the read loop) x all sequences of length 1..%d x 3 scripts, client reads nothing until every frame is queued "+
+		"(PingDuration 0, SendTimeout 24 h so that the stall cannot end the session); %d single-event and 1 all-events session of the C01 gate sweep",
+		maxLen, len(alphabet()), maxLen, m.Counters["c01_sweep_events"])
 	c.P.Rule = "session i of the fixed enumeration (sequences shortest first, lexicographic in the alphabet order, then script, then mode) is distinct by construction; " +
-		"after every frame (stepwise) or after the whole sequence (pipelined) the session is brought to quiescence with synctest.Wait and the recorder and the client's frames are compared with the reference verdict of each frame " +
+		"after every frame (stepwise), after the whole sequence (pipelined) or after the client finally drained a connection it had not read from (stalled-then-drain) the session is brought to quiescence with synctest.Wait and the recorder and the client's frames are compared with the reference verdict of each frame " +
 		"(deliver: valid JSON text of a well-formed message, EVENT authentic by refmodel+btcec; reject: everything else in the alphabet)"
 }
 
@@ -134,6 +136,16 @@ func gateHandler(script string, rcd *recorder) mocrelay.Handler {
 	})
 }
 
+// stalledOption: the sessions of the "stalled-then-drain" family keep the relay's write loop
+// blocked on purpose while more frames are sent; ping disabled and a send timeout of 24 h
+// (virtual time never advances in these sessions) so that the stall itself cannot end the session.
+func stalledOption() *mocrelay.RelayOption {
+	o := gateOption()
+	o.PingDuration = 0
+	o.SendTimeout = 24 * time.Hour
+	return o
+}
+
 func gateOption() *mocrelay.RelayOption {
 	return &mocrelay.RelayOption{
 		SendTimeout:        10 * time.Second,
@@ -195,12 +207,18 @@ func runGateSession(h *wsx.Harness, job gateJob) (res gateResult) {
 	}
 	br := h.RunBubble(func() {
 		rcd := &recorder{}
-		s, err := wsx.Start(gateHandler(job.Script, rcd), gateOption())
+		opt := gateOption()
+		if job.Mode == "stalled-then-drain" {
+			opt = stalledOption()
+		}
+		s, err := wsx.Start(gateHandler(job.Script, rcd), opt)
 		if err != nil {
 			res.infra = "handshake failed: " + err.Error()
 			return
 		}
-		s.StartReader(-1)
+		if job.Mode != "stalled-then-drain" {
+			s.StartReader(-1)
+		}
 		wsx.Wait()
 
 		mk := func(sig string, prop string, detail string) {
@@ -426,6 +444,112 @@ func runGateSession(h *wsx.Harness, job gateJob) (res gateResult) {
 						fmt.Sprintf("%s: %d invalid frame(s), the client got (besides the handler's output) %v", where, len(rejs), rawOf(rest)))
 				}
 			}
+		case "stalled-then-drain":
+			// The client does not read. Frame 1 is invalid: at quiescence its rejection sits in the
+			// relay's write loop, blocked inside conn.Write (net.Pipe has no buffer). The other
+			// frames are then written one at a time, each followed by quiescence; the relay's read
+			// loop may itself block (back-pressure), and then so does the client's write, which is
+			// why the writes come from a goroutine of their own. Only then the client starts to
+			// read and drains everything; the oracle looks at the final state only.
+			queue := make(chan *frame, len(job.Frames))
+			var wmu sync.Mutex
+			written, writtenWhileStalled := 0, 0
+			var werr error
+			wdone := make(chan struct{})
+			go func() {
+				defer close(wdone)
+				for fr := range queue {
+					err := s.Conn.Write(context.Background(), fr.Type, fr.Payload)
+					wmu.Lock()
+					if err != nil {
+						werr = err
+						wmu.Unlock()
+						return
+					}
+					written++
+					wmu.Unlock()
+				}
+			}()
+			for _, fr := range job.Frames {
+				queue <- fr
+				wsx.Wait()
+				lastClass = fr.sigClass()
+			}
+			close(queue)
+			wmu.Lock()
+			writtenWhileStalled = written
+			wmu.Unlock()
+			preFrames := s.NFrames()
+			s.StartReader(-1)
+			wsx.Wait()
+			writerDone := false
+			select {
+			case <-wdone:
+				writerDone = true
+			default:
+			}
+			wmu.Lock()
+			nWritten, sendErr := written, werr
+			wmu.Unlock()
+			nf, ng := takeNew()
+			where := fmt.Sprintf("sequence %v, script %s, stalled-then-drain (the client reads nothing until all frames are queued; %d of %d frames had been accepted by the relay when it started to read)",
+				classes, job.Script, writtenWhileStalled, len(job.Frames))
+			o := stepObs{Frame: strings.Join(classes, " | ")}
+			for _, g := range ng {
+				o.Delivered = append(o.Delivered, describeClientMsg(g))
+			}
+			o.Replies = rawOf(nf)
+			res.obs = append(res.obs, o)
+			var wants []mocrelay.ClientMsg
+			var rejs []*frame
+			for _, fr := range job.Frames {
+				if fr.Verdict == deliver {
+					wants = append(wants, fr.Want)
+				} else {
+					rejs = append(rejs, fr)
+				}
+			}
+			rerr, rerrAt := s.ReadErr()
+			switch {
+			case preFrames != 0:
+				res.infra = "stalled-then-drain: the client had frames before it started to read"
+			case sendErr != nil || rerr != nil:
+				mk("stalled reader: connection closed during the sequence", "C12",
+					fmt.Sprintf("%s: client write error %v, client read error %v (at virtual +%s); handler received %v, client got %v", where, sendErr, rerr, rerrAt, o.Delivered, o.Replies))
+				dead = true
+			case !writerDone || nWritten != len(job.Frames):
+				mk("stalled reader: relay stopped reading although the client drained everything", "C12",
+					fmt.Sprintf("%s: only %d of %d frames were accepted at quiescence; handler received %v, client got %v", where, nWritten, len(job.Frames), o.Delivered, o.Replies))
+				dead = true
+			default:
+				same := len(ng) == len(wants)
+				for i := 0; same && i < len(ng); i++ {
+					same = sameClientMsg(ng[i], wants[i])
+				}
+				if !same {
+					mk("stalled reader: handler did not receive exactly the valid frames in order", "C12", fmt.Sprintf("%s: handler received %v", where, o.Delivered))
+				}
+				rest, okScript := removeScript(nf, 1, len(ng))
+				if !okScript {
+					mk(fmt.Sprintf("stalled reader: handler output lost, altered or reordered (script %s)", job.Script), "C12", fmt.Sprintf("%s: client got %v", where, o.Replies))
+				}
+				// rejections come from the one read loop, in frame order
+				k := 0
+				for k < len(rest) && k < len(rejs) && rest[k].isRejectionOf(rejs[k]) {
+					k++
+				}
+				switch {
+				case k < len(rejs) && k == len(rest):
+					mk(fmt.Sprintf("stalled reader: no rejection for %s sent while an earlier reply was still unread", rejs[k].sigClass()), "C12",
+						fmt.Sprintf("%s: %d invalid frame(s), but after draining the client holds only %d rejection(s): %v (handler output excluded)", where, len(rejs), len(rest), rawOf(rest)))
+				case k == len(rejs) && k < len(rest):
+					mk("stalled reader: more frames than rejections due", "C12",
+						fmt.Sprintf("%s: %d invalid frame(s), the client got (besides the handler's output) %v", where, len(rejs), rawOf(rest)))
+				case k < len(rejs):
+					mk("stalled reader: rejections do not match the invalid frames one to one", "C12",
+						fmt.Sprintf("%s: %d invalid frame(s), the client got (besides the handler's output) %v", where, len(rejs), rawOf(rest)))
+				}
+			}
 		}
 
 		if !dead {
@@ -509,6 +633,28 @@ func gateJobs(tier string) (jobs []gateJob, sweepEvents int) {
 			}
 		}
 	}
+	// stalled-then-drain: a first invalid frame (one per rejection site of the read loop) whose
+	// reply blocks the write loop, then every sequence of 1..maxLen frames, then the drain
+	firsts := []string{"binary frame", "not JSON", "unknown label", "EVENT bad-hex id", "EVENT pubkey not on the curve", "EVENT forged signature"}
+	for _, tail := range seqs {
+		if len(tail) == 0 {
+			continue
+		}
+		for _, fc := range firsts {
+			var first *frame
+			for i := range sigma {
+				if sigma[i].Class == fc {
+					first = &sigma[i]
+				}
+			}
+			if first == nil || first.Verdict != reject {
+				panic("stalled-then-drain: first frame class missing from the alphabet: " + fc)
+			}
+			for _, sc := range scripts {
+				jobs = append(jobs, gateJob{Frames: append([]*frame{first}, tail...), Script: sc, Mode: "stalled-then-drain", Kind: "sequence"})
+			}
+		}
+	}
 	// C01 gate sweep: each event alone, then all of them in one session
 	sw := c01Sweep()
 	var all []*frame
@@ -550,6 +696,9 @@ func wsGateShard(tier string, shard, n int, r *rec, h *wsx.Harness) {
 		r.Distinct++
 		if job.Mode == "pipelined" && len(res.findings) == 0 {
 			r.outcome("pipelined sequence -> valid frames delivered in order, one rejection per invalid frame, handler output in order")
+		}
+		if job.Mode == "stalled-then-drain" && len(res.findings) == 0 {
+			r.outcome("stalled-then-drain sequence -> after the drain: valid frames delivered in order, one rejection per invalid frame, handler output in order")
 		}
 		r.count("sessions_"+job.Kind+"_"+job.Mode, 1)
 		r.count("frames_sent", int64(len(job.Frames))+1)
